@@ -23,7 +23,7 @@ type PropDef struct {
 	Skip []string
 }
 
-var graphSetPosts = []string{"C09:add:", "C09:union:", "C10:", "C08:add:", "C08:union:", "C08:intersect:", "C08:remove:", "C09:copy:", "C08:indexNodes:", "C08:indexRoots:", "C08:idx", "C08:inv", "C09:inv", "C10:inv", "C08:cleanEdges:closedFrom", "C08:cleanEdges:closedTo", "C08:cleanEdges:oneEdgePerSourceAndType", "C08:cleanEdges:noRepeatedTargets"}
+var graphSetPosts = []string{"C09:add:", "C09:union:", "C10:", "C08:add:", "C08:union:", "C08:intersect:", "C08:remove:", "C09:copy:", "C08:indexNodes:", "C08:indexRoots:", "C08:idx", "C15:", "C08:inv", "C09:inv", "C10:inv", "C08:cleanEdges:closedFrom", "C08:cleanEdges:closedTo", "C08:cleanEdges:oneEdgePerSourceAndType", "C08:cleanEdges:noRepeatedTargets"}
 
 var propDefs = map[string]PropDef{
 	"C01": {Classes: []string{"TABLE", "LEMMA", "POST", "INV", "PRE"}, Level: "proof"},
